@@ -246,9 +246,10 @@ def judge(r):
     shapes = r["shapes"]
     if r["crash"] or not r["written"]:
         if r["pred_crash"]:
-            for s in shapes:
-                if s.startswith("crash:"):
-                    known.append((s, SHAPE_TEXT.get(s, s)))
+            # attribute the crash to a shape only when it is the single possible cause in this document
+            cs = [s for s in shapes if s.startswith("crash:")]
+            if len(cs) == 1:
+                known.append((cs[0], SHAPE_TEXT.get(cs[0], cs[0])))
         else:
             viol.append(("crash:write_XML_file", "the writer crashed on a document without a crash shape: %r" % r["raw"][-3:]))
         return known, viol, mism
